@@ -87,8 +87,11 @@ def write_evidence(cx, lean, extra_cov):
         'wall_s': round(time.time() - cx.t0, 2),
         'violations': len(cx.violations),
     }
-    os.makedirs(os.path.join(ROOT, 'evidence'), exist_ok=True)
-    with open(os.path.join(ROOT, 'evidence', f'{cx.pid}.json'), 'w') as f:
+    # a development run that skipped the Lean part (--skip-lean: seeded-change sweeps) is not evidence for a proof-level
+    # claim: its record goes under replays/ (not committed), never over the evidence file
+    edir = os.path.join(ROOT, 'replays', 'skiplean-evidence') if (getattr(cx, 'skip_lean', False) or getattr(cx, 'is_replay', False)) else os.path.join(ROOT, 'evidence')
+    os.makedirs(edir, exist_ok=True)
+    with open(os.path.join(edir, f'{cx.pid}.json'), 'w') as f:
         json.dump(ev, f, indent=1, default=str)
 
 
@@ -146,10 +149,16 @@ def main():
     try:
         import extract
         ext = extract.regenerate()
+        # a translation error concerns a property only if its theorems depend on the regenerated file in question
+        deps = leanpart.transitive_imports(f'TealerModel.Props.{a.pid}')
         for e in ext.get('errors', []):
-            cx.broken.append(f"translate: {e}")
+            gen = e.split(':', 1)[0] if e.split(':', 1)[0] in ('Leaf', 'Matchers', 'OpTable', 'ParseTable', 'Consts') else 'Leaf'
+            if f'TealerModel.Generated.{gen}' in deps:
+                cx.broken.append(f"translate: {e}")
     except Exception:
         cx.broken.append("extract failed: " + traceback.format_exc()[-500:])
+    cx.skip_lean = bool(a.skip_lean)
+    cx.is_replay = bool(a.replay)      # a replay of one recorded case is not a coverage record either
     if a.skip_lean:
         lean = leanpart.LeanResult(); lean.build_ok = True
     else:
